@@ -314,6 +314,100 @@ def _naive(x):
 
 
 # ---------------------------------------------------------------------------
+# C02: totals, per-field counts, tabular and text forms equal the verdict counts;
+# a null-valued constraint changes no other verdict
+# ---------------------------------------------------------------------------
+
+def check_totals(b, seed):
+    import random
+    from tdda.constraints import verify_df
+    rnd = random.Random(seed)
+    df = pd.DataFrame({'i': [1, 2, 3, None], 'x': [0.5, -1.5, 2.5, 2.5],
+                       's': pd.Series(['a', 'bb', None, 'a'], dtype=object), 'b': [True, False, True, True]})
+    pools = {
+        'i': {'type': ['real', 'int', 'string', ['int', 'real']], 'min': [0, 1, 2, None], 'max': [3, 2, None],
+              'sign': ['positive', 'negative', None], 'max_nulls': [0, 1, None], 'no_duplicates': [True, None]},
+        'x': {'type': ['real', 'int'], 'min': [-1.5, -1.0, {'value': -1.5, 'precision': 'open'}], 'max': [2.5, 2.0, None],
+              'sign': ['positive', 'null', None], 'max_nulls': [0, None], 'no_duplicates': [True, False]},
+        's': {'type': ['string', 'int'], 'min_length': [1, 2, None], 'max_length': [2, 1, None],
+              'allowed_values': [['a', 'bb'], ['a'], None], 'rex': [['^a$', '^bb$'], ['^a$']], 'max_nulls': [1, 0]},
+        'b': {'type': ['bool', 'int'], 'max_nulls': [0, None]},
+        'missing': {'type': ['int', None], 'min': [0, None], 'max_nulls': [None, 0]},
+    }
+    for trial in range(120):
+        cons = {'fields': {}}
+        for f in rnd.sample(list(pools), rnd.randint(1, len(pools))):
+            fc = {}
+            for kind in rnd.sample(list(pools[f]), rnd.randint(1, len(pools[f]))):
+                fc[kind] = rnd.choice(pools[f][kind])
+            cons['fields'][f] = fc
+        for tc in ('strict', 'sloppy'):
+            for report in ('all', 'fields'):
+                w = {'constraints': json.dumps(cons, default=repr), 'type_checking': tc, 'report': report}
+                b.case(('totals', json.dumps(cons, sort_keys=True, default=repr), tc, report))
+                with quiet():
+                    ok, v = b.guarded('C02.verify_df.noraise',
+                                      lambda: verify_df(df.copy(), cons, type_checking=tc, report=report, repair=False), w)
+                if not ok:
+                    continue
+                verdicts = {f: dict(r) for f, r in v.fields.items()}
+                tp = sum(1 for r in verdicts.values() for s_ in r.values() if s_ is not None and bool(s_))
+                tf = sum(1 for r in verdicts.values() for s_ in r.values() if s_ is not None and not bool(s_))
+                b.check('C02.totals-equal-verdict-counts', (v.passes, v.failures) == (tp, tf), w,
+                        'passes/failures %r, counted %r' % ((v.passes, v.failures), (tp, tf)))
+                okf = all((r.passes, r.failures) == (
+                    sum(1 for s_ in dict(r).values() if s_ is not None and bool(s_)),
+                    sum(1 for s_ in dict(r).values() if s_ is not None and not bool(s_))) for r in v.fields.values())
+                b.check('C02.per-field-counts-equal-verdict-counts', okf, w)
+                b.check('C02.every-field-and-kind-has-a-verdict',
+                        {f: sorted(r) for f, r in verdicts.items()} == {f: sorted(fc) for f, fc in cons['fields'].items()}, w,
+                        repr({f: sorted(r) for f, r in verdicts.items()}))
+                # documented rules for missing fields and null values
+                for f, r in verdicts.items():
+                    for kind, sat in r.items():
+                        val = cons['fields'][f][kind]
+                        if f == 'missing' and val is not None:
+                            b.check('C02.missing-field-fails', sat is not None and not bool(sat), dict(w, field=f, kind=kind))
+                        if f != 'missing' and val is None:
+                            b.check('C02.null-valued-constraint-satisfied', bool(sat), dict(w, field=f, kind=kind))
+                # tabular form
+                with quiet():
+                    okt, fr = b.guarded('C02.to_frame.noraise', lambda: v.to_frame(), w)
+                if okt:
+                    rows = {row['field']: row for _, row in fr.iterrows()}
+                    okr = all(int(rows[f]['passes']) == v.fields[f].passes and int(rows[f]['failures']) == v.fields[f].failures
+                              for f in verdicts) and len(fr) == len(verdicts)
+                    for f, r in verdicts.items():
+                        for kind, sat in r.items():
+                            cell = rows[f][kind]
+                            if sat is None:
+                                okr = okr and (cell is None or cell != cell)
+                            else:
+                                okr = okr and bool(cell) == bool(sat)
+                    b.check('C02.tabular-form-equals-verdicts', okr, w, fr.to_string()[:300])
+                # text form
+                txt = str(v)
+                b.check('C02.text-form-totals', ('Constraints passing: %d' % tp) in txt and ('Constraints failing: %d' % tf) in txt, w, txt[-120:])
+                # adding a null-valued constraint changes no other verdict and adds one pass
+                f0 = next((f for f in cons['fields'] if f != 'missing'), None)
+                free = [k for k in ('min', 'max', 'sign', 'max_nulls', 'min_length', 'max_length', 'allowed_values')
+                        if f0 and k not in cons['fields'][f0]]
+                if f0 and free:
+                    c2 = json.loads(json.dumps(cons))
+                    c2['fields'][f0][free[0]] = None
+                    with quiet():
+                        ok2, v2 = b.guarded('C02.verify_df.noraise',
+                                            lambda: verify_df(df.copy(), c2, type_checking=tc, report=report, repair=False), w)
+                    if ok2:
+                        others = {f: {k: (None if s_ is None else bool(s_)) for k, s_ in dict(r).items() if not (f == f0 and k == free[0])}
+                                  for f, r in v2.fields.items()}
+                        base_v = {f: {k: (None if s_ is None else bool(s_)) for k, s_ in r.items()} for f, r in verdicts.items()}
+                        b.check('C02.null-valued-constraint-changes-nothing-else',
+                                others == base_v and v2.passes == v.passes + 1 and v2.failures == v.failures,
+                                dict(w, added='%s.%s' % (f0, free[0])), '%r vs %r' % (others, base_v))
+
+
+# ---------------------------------------------------------------------------
 # C07 / C01: discovery is exact; discovered constraints verify and detect clean
 # ---------------------------------------------------------------------------
 
@@ -489,6 +583,8 @@ def run(props, tier, seed, families=None):
             for k2, v in contracts.items():
                 total.contracts[k2] = total.contracts.get(k2, 0) + v
     total.samples = total.samples[:8]
+    if 'C02' in props:
+        check_totals(total, seed)
     return total
 
 
